@@ -50,8 +50,8 @@ MUTANTS = [
     ('ar8-role-inverted', 'fsm.py', 'if self.provider.requestor == 1:',
      'if self.provider.requestor != 1:', ['C04', 'C05']),
     ('dt2-early-delivery', 'fsm.py',
-     '        self.dimse_decoder.process(self.primitive)\n        if not self.dimse_decoder.receiving:\n            msg, pc_id = self.dimse_decoder.msg, self.dimse_decoder.pc_id\n            self.to_service_user.put((msg, pc_id))\n            self.dimse_decoder = None\n        return States.STA_6',
-     '        self.dimse_decoder.process(self.primitive)\n        if self.dimse_decoder.msg is not None:\n            msg, pc_id = self.dimse_decoder.msg, self.dimse_decoder.pc_id\n            self.to_service_user.put((msg, pc_id))\n            self.dimse_decoder = None\n        return States.STA_6',
+     '        if not self.dimse_decoder.receiving:\n            msg, pc_id = self.dimse_decoder.msg, self.dimse_decoder.pc_id\n            self.to_service_user.put((msg, pc_id))\n            self.dimse_decoder = None\n        return States.STA_6',
+     '        if self.dimse_decoder.msg is not None:\n            msg, pc_id = self.dimse_decoder.msg, self.dimse_decoder.pc_id\n            self.to_service_user.put((msg, pc_id))\n            self.dimse_decoder = None\n        return States.STA_6',
      ['C07']),
     ('aa8-source-user', 'fsm.py', 'self.primitive = pdu.AAbortPDU(source=2, reason_diag=0)\n        if self.dul_socket:',
      'self.primitive = pdu.AAbortPDU(source=0, reason_diag=0)\n        if self.dul_socket:', ['C04', 'C05']),
@@ -83,6 +83,40 @@ MUTANTS = [
     ('wrong-pcid', 'dimsemessages.py',
      "            value_item = pdu.PresentationDataValueItem(pc_id, struct.pack('b', bit) + item)\n            yield pdu.PDataTfPDU([value_item])\n\n        # fragment data set",
      "            value_item = pdu.PresentationDataValueItem(1, struct.pack('b', bit) + item)\n            yield pdu.PDataTfPDU([value_item])\n\n        # fragment data set", ['C06']),
+    ('decoder-cmd-completes-early', 'fsm.py', 'if no_ds or self.data_set_received:',
+     'if True:', ['C07']),
+    ('decoder-forgets-seek', 'fsm.py', 'self._dataset_fp.seek(self._start)', 'pass', ['C07']),
+    ('write-meta-wrong-ts', 'applicationentity.py', 'meta.TransferSyntaxUID = ts',
+     "meta.TransferSyntaxUID = uid.ImplicitVRLittleEndian", ['C07', 'C15']),
+    ('write-meta-wrong-instance', 'applicationentity.py',
+     'meta.MediaStorageSOPInstanceUID = command_set.AffectedSOPInstanceUID',
+     'meta.MediaStorageSOPInstanceUID = command_set.AffectedSOPClassUID', ['C07', 'C15']),
+    ('decoder-pcid-first', 'fsm.py', '                self.pc_id = value_item.context_id',
+     '                self.pc_id = self.pc_id or 1', ['C07']),
+    ('decoder-drops-data-join', 'fsm.py', "self.msg.data_set = b''.join(self._encoded_data_set)",
+     "self.msg.data_set = b''.join(self._encoded_data_set[:1])", ['C07']),
+    ('accept-ts-not-checked', 'asceprovider.py', '                if ts.name in self.ae.supported_ts:',
+     '                if ts.name in self.ae.supported_ts or len(proposed_ts) > 2:', ['C09']),
+    ('accept-returns-first-supported-of-ae', 'asceprovider.py',
+     '                    rsp.append(pdu.PresentationContextItemAC(pc_id, 0, ts))\n                    ts_uid = uid.UID(ts.name)',
+     '                    ts = pdu.TransferSyntaxSubItem(sorted(self.ae.supported_ts)[0])\n                    rsp.append(pdu.PresentationContextItemAC(pc_id, 0, ts))\n                    ts_uid = uid.UID(ts.name)',
+     ['C09']),
+    ('accept-drops-refused-items', 'asceprovider.py',
+     "                # refuse sop class because of SOP class not supported\n                rsp.append(pdu.PresentationContextItemAC(pc_id, 1, pdu.TransferSyntaxSubItem('')))\n                continue",
+     "                # refuse sop class because of SOP class not supported\n                continue", ['C09']),
+    ('accept-routing-ts-differs', 'asceprovider.py',
+     '                    self.sop_classes_as_scp[pc_id] = (pc_id, proposed_sop, ts_uid)',
+     '                    self.sop_classes_as_scp[pc_id] = (pc_id, proposed_sop, uid.UID(proposed_ts[-1].name))',
+     ['C09']),
+    ('accept-unserved-sop-accepted', 'asceprovider.py',
+     '            if proposed_sop not in self.ae.supported_scp:',
+     '            if proposed_sop not in self.ae.supported_scp and pc_id > 100:', ['C09']),
+    ('accept-titles-swapped', 'asceprovider.py',
+     '            called_ae_title=assoc_req.called_ae_title,\n            calling_ae_title=assoc_req.calling_ae_title,',
+     '            called_ae_title=assoc_req.calling_ae_title,\n            calling_ae_title=assoc_req.called_ae_title,', ['C09']),
+    ('loop-ignores-context-table', 'asceprovider.py',
+     '                _, sop_class, ts = self.sop_classes_as_scp[pc_id]',
+     '                _, sop_class, ts = self.sop_classes_as_scp.get(pc_id) or next(iter(self.sop_classes_as_scp.values()))', ['C09']),
 ]
 
 
